@@ -65,6 +65,8 @@ def minutes_of(t):
     """datetime / pandas.Timestamp / numpy.datetime64 -> integer minutes after BASE (None if not whole)."""
     if isinstance(t, np.datetime64):
         t = pd.Timestamp(t)
+    if not isinstance(t, datetime) or t is pd.NaT:
+        return None
     t = datetime(t.year, t.month, t.day, t.hour, t.minute, t.second, t.microsecond)
     q, r = divmod(t - BASE, ONE_MIN)
     return q if r == timedelta(0) else None
@@ -616,3 +618,24 @@ PARTS = [
     Part("transmitter", strategy=lambda tier: episode_cases(tier, False), run=run_transmitter, quick=4000, thorough=80000),
     Part("walk_forward", enumerate=enumerate_walk_forward, run=run_walk_forward),
 ]
+
+
+# Sensitivity record (scratch copy of /repo/tradingenv, one change at a time,
+# `VERIF_PKG_ROOT=/tmp/c15mut ./check C15 --tier quick --no-evidence`; every line: exit 1 + VIOLATION).
+#   m1  transmitter._reset: steps[: -episode_length] (one start lost)               caught by episodes, transmitter
+#   m2  env.__init__: the `+ 1` on episode_length removed                           caught by episodes
+#   m3a fold filter `start_date < steps`                                            caught by episodes, transmitter
+#   m3b fold filter `steps < end_date`                                              caught by episodes, transmitter
+#   m4  walk_forward stride 1 instead of test_size                                  caught by walk_forward (overlap)
+#   m5a end_date_idx = start + episode_length (one too many)                        caught by episodes, transmitter
+#   m5b end_date_idx = start + episode_length - 2 (one too few)                     caught by episodes, transmitter
+#   m6  np.random.choice(range(len(start_dates) - 1)) (last start never drawn)      caught by episodes, transmitter
+#   m7  (own) bisect_right: event on a grid point goes to the next timestep         caught by episodes, transmitter
+#   m8  (own) walk_forward train_end = train_start + train_size (overlaps test)     caught by walk_forward
+#   m9  (own) events exactly on the last timestep dropped (`<` in _create_partitions) caught by episodes, transmitter
+#   m10 (own) env.reset: constructor length wins over reset(episode_length=)        caught by episodes (reset+ctor)
+#   m11 (own) history replay excludes the first timestep's own events               caught by episodes, transmitter
+#   m12 (own) walk_forward test_end one short                                       caught by walk_forward
+#   m13 (own) expanding window does not start at the first timestep                 caught by walk_forward
+# Out-of-quantifier observation (not asserted, not generated): episode_length=1 state (zero decisions) given to
+# TradingEnv.reset / Transmitter._reset is refused with ValueError because steps[: -(1 - 1)] == steps[:0] is empty.
